@@ -54,3 +54,25 @@ Theorem C02_encoder_sound : forall U P, WF U -> forall c evs st work S,
   enc_run U P (estate0 c) [] [] evs = Some (st, work) -> valid U P S [] ->
   forall x, In x (e_db st) -> cl_true (a_sel U (trk_idx (e_trk st)) S) (cl_lits x) = true.
 Proof. exact enc_sound. Qed.
+
+(* ---- conflict analysis itself (Cdcl/Analyze.v: model of Solver::analyze --
+   first-UIP resolution over the trail with levels; every analysis of every hook
+   log must EQUAL the model: learnt clause literal for literal, derivation list,
+   pops, backjump level, asserted literal) ---- *)
+From Resolvo Require Import Cdcl.AnalyzeRunProofs.
+
+(* for every clause database, trail and conflicting clause: the learnt clause
+   is entailed by the clauses it was derived from (side conditions evaluated per
+   analysis by analysis_ok) *)
+Theorem C02_analyze_sound : forall db tr conf r,
+  analyze db tr conf = Some r -> analysis_ok db tr conf r = true ->
+  forall a, (forall j c, In j (r_why r) -> nth_error db (N.to_nat j) = Some c -> cl_true a (cl_lits c) = true) ->
+  cl_true a (r_learnt r) = true.
+Proof. exact analyze_sound. Qed.
+
+(* an accepted replay of a hook log: every learnt clause of the database follows
+   from its recorded antecedents *)
+Theorem C02_analyses_entail : forall db evs n,
+  check_analyses db evs = (n, true) ->
+  forall id c, nth_error db (N.to_nat id) = Some c -> is_learnt c = true -> learnt_entailed db id.
+Proof. exact analyses_entail. Qed.
